@@ -50,7 +50,7 @@ pub fn whole_file_opts() -> BOpts {
 
 pub fn scenario(name: &str, srcs: &SrcCache) -> RaceScenario {
     let (garbage, delete, opts): (Vec<&[u8]>, Vec<u32>, BOpts) = match name {
-        "backup||gc" => (vec![b"GGGGGGGG"], vec![], whole_file_opts()),
+        "backup||gc" | "backup||gc-at-b9999" => (vec![b"GGGGGGGG"], vec![], whole_file_opts()),
         "backup||delete-b0" => (vec![b"GGGGGGGG"], vec![0], whole_file_opts()),
         "backup||gc-two-garbage" => (vec![b"GGGGGGGG", b"HHHHHHHH"], vec![], whole_file_opts()),
         "backup||gc-two-garbage-rev" => (vec![b"GGGGGGGG", b"HHHHHHHH"], vec![], whole_file_opts()),
@@ -159,10 +159,24 @@ pub fn scenario(name: &str, srcs: &SrcCache) -> RaceScenario {
     let src = new_tree(&garbage);
     let scn = common::build_scenario(name, &hist, src.clone(), opts.clone(), srcs);
     let order = if name.ends_with("-rev") { Some(vec![usize::MAX]) } else { None };
+    // "-at-b9999": the existing version is b9999, so the backup creates b10000 (one more digit:
+    // where comparing names is not comparing numbers)
+    let (initial, band_src) = if name.ends_with("-at-b9999") {
+        let mut snap = crate::fmt06::Snap::default();
+        for (f, c) in &scn.pre.files {
+            snap.files.insert(f.replacen("b0000", "b9999", 1), c.clone());
+        }
+        for d in &scn.pre.dirs {
+            snap.dirs.insert(d.replacen("b0000", "b9999", 1));
+        }
+        (snap, scn.band_src.iter().map(|(b, t)| (if *b == 0 { 9999 } else { *b }, t.clone())).collect())
+    } else {
+        (scn.pre.clone(), scn.band_src.clone())
+    };
     RaceScenario {
         name: name.to_string(),
-        initial: scn.pre.clone(),
-        band_src: scn.band_src.clone(),
+        initial,
+        band_src,
         specs: vec![
             ActorSpec::Backup {
                 src: srcs.dir_for(&src),
@@ -188,6 +202,7 @@ pub fn scenario_names(thorough: bool) -> Vec<&'static str> {
             "backup||gc",
             "backup||delete-b0",
             "backup||gc-no-bands-yet",
+            "backup||gc-at-b9999",
             "backup||gc-two-garbage",
             "backup||gc-two-garbage-rev",
             "backup||gc-small-hunks",
@@ -196,7 +211,7 @@ pub fn scenario_names(thorough: bool) -> Vec<&'static str> {
             "backup||delete-b0-T1-T2",
         ]
     } else {
-        vec!["backup||gc", "backup||delete-b0", "backup||gc-no-bands-yet"]
+        vec!["backup||gc", "backup||delete-b0", "backup||gc-no-bands-yet", "backup||gc-at-b9999"]
     }
 }
 
